@@ -57,6 +57,13 @@ def cases(tier, seed):
         add(make(['r'], ['a', 'b'], [edge('r', 'a', d1, 0), edge('r', 'b', d2, 1)]), 'shared_source')
         add(make(['r'], ['a'], [edge('r', 'a', d1, 0), edge('r', 'a', d2, 1)]), 'parallel')
         add(make(['r', 'q'], ['a'], [edge('r', 'a', d1, 0), edge('q', 'a', d2, 1)]), 'shared_target')
+    # two parallel edges between one pair of variables plus a further edge from the same source, listed before / after
+    for d1, d2, d3 in itertools.product(D[1:4], D[1:4], D[:4]):
+        if d1 == d2:
+            continue
+        for order in ((0, 1, 2), (2, 0, 1), (0, 2, 1)):
+            es = [edge('r', 'a', d1, 0), edge('r', 'a', d2, 1), edge('r', 'b', d3, 2)]
+            add(make(['r'], ['a', 'b'], [es[k] for k in order]), 'parallel_plus')
     # feedback loop: delayed edge from the target back to the source
     for d1, d2 in itertools.product(D[1:4], D[:3]):
         s = make(['r'], ['a'], [edge('r', 'a', d1, 0, sop='fo')], feedback=True)
